@@ -216,8 +216,16 @@ static bool runScenario(uint64_t seed, uint64_t idx)
   auto onErr = [S](std::exception_ptr) { S->errHandlerCalls++; };
   // a third of the pools have NO task-error handler (throwing tasks then take the pool's default path)
   bool noHandler = rng.chance(0.33);
+  // shutdown mode: IMMEDIATE (default) or GRACEFUL, given to the constructor or set afterwards; both must join
+  // their workers (DETACHED is documented as leaking and excluded)
+  int modeHow = int(rng.below(4)); // 0,1 default IMMEDIATE  2 GRACEFUL by constructor  3 GRACEFUL by setShutdownMode
+  if (modeHow == 2)
+    S->pool = new ThreadPool(S->minT, S->maxT, std::chrono::milliseconds(idleMs), S->qsize, noHandler ? std::function<void(std::exception_ptr)>() : std::function<void(std::exception_ptr)>(onErr), ThreadPool::ShutdownMode::GRACEFUL);
+  else
   S->pool = noHandler ? new ThreadPool(S->minT, S->maxT, std::chrono::milliseconds(idleMs), S->qsize)
                       : new ThreadPool(S->minT, S->maxT, std::chrono::milliseconds(idleMs), S->qsize, onErr);
+  if (modeHow == 3) S->pool->setShutdownMode(ThreadPool::ShutdownMode::GRACEFUL);
+  if (modeHow >= 2) O.obs("scenarios_in_graceful_shutdown_mode");
   // a quarter of the scenarios run in the SECOND life of the pool (stop -> reset -> start after a short earlier
   // life): the restarted pool owes the same guarantees, and nothing of the first life may leak into the second
   bool secondLife = rng.chance(0.25);
@@ -485,7 +493,10 @@ static bool runLong(uint64_t seed, uint64_t variant)
   size_t total = size_t(nLong + nQueued) + 2;
   for (size_t i = 0; i < total; i++) S->recs.emplace_back(new TaskRec());
   auto onErr = [S](std::exception_ptr) { S->errHandlerCalls++; };
-  S->pool = new ThreadPool(S->minT, S->maxT, std::chrono::milliseconds(500), S->qsize, onErr);
+  bool graceful = (v == 2 || v == 7 || v == 1); // GRACEFUL shutdown mode must wait just like IMMEDIATE
+  S->pool = graceful ? new ThreadPool(S->minT, S->maxT, std::chrono::milliseconds(500), S->qsize, onErr, ThreadPool::ShutdownMode::GRACEFUL)
+                     : new ThreadPool(S->minT, S->maxT, std::chrono::milliseconds(500), S->qsize, onErr);
+  if (graceful) O.obs("long_graceful_mode");
   for (int i = 0; i < nLong; i++) submit(S, size_t(i), int(rng.below(3)), LONG, uint64_t(dur[v] + jitter));
   // wait until the long tasks are really running, so that the quick ones stay queued behind them
   for (int i = 0; i < 4000 && S->running.load() < nLong; i++) vf::sleepMs(0.5);
@@ -559,7 +570,7 @@ static bool runLong(uint64_t seed, uint64_t variant)
   if (drainTimedOut) O.obs("long_drain_timed_out_before_stop");
   O.obsMax("long_shutdown_took_ms_max", tookMs);
   char sig[160];
-  snprintf(sig, sizeof sig, "long v=%d sd=%d min=%zu max=%zu dur=%d claimed=%d", v, shutdownKind, S->minT, S->maxT, dur[v], claimed ? 1 : 0);
+  snprintf(sig, sizeof sig, "long v=%d sd=%d min=%zu max=%zu dur=%d claimed=%d graceful=%d", v, shutdownKind, S->minT, S->maxT, dur[v], claimed ? 1 : 0, graceful ? 1 : 0);
   O.caseSig(vf::fnv(sig, strlen(sig)));
   O.sample("{\"kind\":\"long-task shutdown\",\"sig\":" + vf::jstr(sig) + ",\"shutdown_took_ms\":" + std::to_string(tookMs) + ",\"accepted\":" + std::to_string(accepted) + "}");
   delete S;
